@@ -88,10 +88,13 @@ Theorem C11_ip_operator :
 Proof. exact ip_correct. Qed.
 Print Assumptions C11_ip_operator.
 
-(* networks of different IP versions cannot be compared (Python raises TypeError): None, for both operators *)
+(* a network of the other IP version lies in no network of this one: IpAddress is False and NotIpAddress True.  (Before fix F30 the
+   pair was "incomparable" -- subnet_of raises TypeError across versions -- and both operators answered None, which made a policy
+   listing IPv4 and IPv6 ranges under one key unanswerable or not depending on the ORDER of the ranges: Iam/BlockAlgebra.v
+   had to refute order-blindness of value lists with exactly that witness.) *)
 Theorem C11_ip_other_version :
   forall (fold : str -> str) (a b : net), n_ver a <> n_ver b ->
-    op_test fold OIpAddress (CNet b) (CNet a) = None /\ op_test fold ONotIpAddress (CNet b) (CNet a) = None.
+    op_test fold OIpAddress (CNet b) (CNet a) = Some false /\ op_test fold ONotIpAddress (CNet b) (CNet a) = Some true.
 Proof. exact ip_other_version. Qed.
 Print Assumptions C11_ip_other_version.
 
@@ -175,7 +178,8 @@ Proof. repeat split; vm_compute; reflexivity. Qed.
 Example C11_ex_ip : op_test id_fold OIpAddress (CNet (net4 10 0 0 0 8)) (CNet (net4 10 1 0 0 16)) = Some true
                     /\ op_test id_fold OIpAddress (CNet (net4 10 1 0 0 16)) (CNet (net4 10 0 0 0 8)) = Some false
                     /\ op_test id_fold ONotIpAddress (CNet (net4 10 0 0 0 8)) (CNet (net4 11 0 0 0 8)) = Some true
-                    /\ op_test id_fold OIpAddress (CNet (net4 10 0 0 0 8)) (CNet (Net V6 0 0)) = None.
+                    /\ op_test id_fold OIpAddress (CNet (net4 10 0 0 0 8)) (CNet (Net V6 0 0)) = Some false   (* other version: outside *)
+                    /\ op_test id_fold ONotIpAddress (CNet (net4 10 0 0 0 8)) (CNet (Net V6 0 0)) = Some true.
 Proof. repeat split; vm_compute; reflexivity. Qed.
 Example C11_ex_wf : wf_net (net4 10 1 0 0 16) /\ wf_net (Net V6 0 0).
 Proof. split; vm_compute; repeat split; discriminate. Qed.
